@@ -131,8 +131,12 @@ class Evaluator:
             c = st.value
             if isinstance(c, ast.Call) and isinstance(c.func, ast.Attribute):
                 p = dotted(c.func.value)
-                if p is not None and p in env and isinstance(env[p], Sym):
-                    env[p] = env[p].tag(("call", c.func.attr))
+                if p is not None:
+                    cur = env.get(p)
+                    if cur is None:
+                        cur = self._try(c.func.value, env)
+                    if isinstance(cur, Sym):
+                        env[p] = cur.tag(("call", c.func.attr))
             return None
         if isinstance(st, (ast.Assert, ast.Pass)):
             if isinstance(st, ast.Assert):
@@ -141,6 +145,15 @@ class Evaluator:
         if isinstance(st, ast.Raise):
             return ("ret", Sym("raise", {("raise", norm(st.exc)[:40] if st.exc else "")}))
         if isinstance(st, (ast.For, ast.While, ast.Try, ast.With)):
+            if getattr(self, "skip_loops", False) and isinstance(st, (ast.For, ast.While)):
+                # opaque loop: everything it assigns becomes an unknown symbolic value
+                for n in ast.walk(st):
+                    if isinstance(n, (ast.Assign, ast.AugAssign)):
+                        for t in n.targets if isinstance(n, ast.Assign) else [n.target]:
+                            p = dotted(t)
+                            if p is not None:
+                                env[p] = Sym(p, {("loop-assigned",)})
+                return None
             raise Unsupported(f"statement {type(st).__name__}")
         return None
 
